@@ -6,7 +6,7 @@
    node list 0..n-1, and stores exactly those pairs (in storage orientation,
    in order). *)
 From Coq Require Import String List Bool ZArith Arith Lia.
-From GV Require Import Base.Outcome Base.AMap Model.GState Model.Creation Model.Query Model.Classic.
+From GV Require Import Base.Outcome Base.AMap Model.GState Model.Creation Model.Query Model.Classic Proofs.CreationMono.
 Import ListNotations.
 
 (* ---- association lists ---- *)
@@ -210,7 +210,7 @@ Lemma GI_add_edge j s added g u v :
 Proof.
   intros G Hsl Hdd Hmu Hu Hv Huv Hnew.
   pose proof (gi_sp _ _ _ _ G) as Hsp.
-  unfold add_edge. cbv zeta. cbn [edge_new eu ev ew eattr fst snd].
+  rewrite <- (add_edge_mono_eq Z.eqb Z.ltb g (edge_new (u, v))). unfold add_edge_mono. cbv zeta. cbn [edge_new eu ev ew eattr fst snd].
   rewrite Hsp, Hsl, Hdd, Hmu.
   rewrite (proj2 (Z.eqb_neq u v) Huv). cbn [negb andb].
   unfold has_name, contains_key.
